@@ -625,6 +625,11 @@ class Models:
                 fv = args[0]
                 tup = args[1]
                 tgt = deref(fv)
+                if tgt is None:
+                    # a capture-less closure is zero-sized: MIR may never assign its local; its identity is in the callee path
+                    mclo = re.search(r'\{closure@([^{}]*)\}', ci.qself or '')
+                    if mclo:
+                        tgt = Closure('closure@' + mclo.group(1), [])
                 if type(tgt) is Opaque:
                     h = TABLE.get(tgt.kind + '::call')
                     if h:
@@ -2011,7 +2016,7 @@ def _(it, ci, a, d):
     return Tup([0, none()])
 
 
-@model('iter::once', 'sources::once::once', 'once::once')
+@model('iter::once', 'sources::once::once', 'once::once', 'once')
 def _(it, ci, a, d):
     return Opaque('Once', PyIter([a[0]]))
 
